@@ -75,6 +75,13 @@ def main():
             meta["needs_to_manifest"] = open(notes).read()[:1500] if os.path.exists(notes) else ""
             meta["what_was_run"] = [f"PYTHONPATH=<worktree> /venv/bin/python demo.py (clean tree: exit {clean.returncode}; with change: exit {d.returncode})",
                                     "PYTHONPATH=<worktree> /venv/bin/python -m pytest -q -p no:cacheprovider (with change)", f"git -C /repo apply patch.diff; ./check {prop}; git -C /repo checkout -- ."]
+            try:
+                oldm = json.load(open(f"{outdir}/meta.json"))
+                for k in ("assessment", "ported", "status"):        # hand-written annotations survive a re-run
+                    if k in oldm and k not in meta:
+                        meta[k] = oldm[k]
+            except Exception:
+                pass
             json.dump(meta, open(f"{outdir}/meta.json", "w"), indent=1)
             summary.append((prop, m, "CONFIRMED" if confirmed else f"UNCONFIRMED(clean={clean.returncode},with={d.returncode},{tests.stdout.strip()[:20]})", det))
             print(prop, m, summary[-1][2], det, flush=True)
